@@ -85,7 +85,8 @@ pub enum Ev {
 	SignClosing { node: usize, keys: [u8; 32], funding: Option<Txid>, value_sat: u64, to_holder_sat: u64, to_counterparty_sat: u64, holder_script: ScriptBuf, counterparty_script: ScriptBuf },
 	// ---- watch / persist taps ----
 	WatchNew { node: usize, chan: ChannelId, update_id: u64, status: String },
-	WatchUpdate { node: usize, chan: ChannelId, update_id: u64, steps: Vec<VerifStep>, status: String, bytes: Vec<u8> },
+	WatchUpdate { node: usize, chan: ChannelId, update_id: u64, steps: Vec<VerifStep>, status: String, bytes: Vec<u8>, /// None: the update read back from its serialization equals the original
+		roundtrip: Option<String> },
 	PersistNew { node: usize, chan: ChannelId, update_id: u64, in_progress: bool },
 	PersistUpdate { node: usize, chan: ChannelId, update_id: Option<u64>, latest: u64, in_progress: bool },
 	Completed { node: usize, chan: ChannelId, update_id: u64 },
@@ -166,6 +167,16 @@ pub struct TapSigner {
 	pub inner: InMemorySigner,
 	pub log: Arc<EvLog>,
 	pub node: usize,
+}
+impl Clone for TapSigner {
+	fn clone(&self) -> Self {
+		TapSigner { inner: self.inner.clone(), log: self.log.clone(), node: self.node }
+	}
+}
+impl PartialEq for TapSigner {
+	fn eq(&self, o: &Self) -> bool {
+		self.inner == o.inner
+	}
 }
 impl TapSigner {
 	fn k(&self) -> [u8; 32] {
@@ -501,8 +512,13 @@ impl chain::Watch<TapSigner> for WatchTap {
 	fn update_channel(&self, channel_id: ChannelId, update: &ChannelMonitorUpdate) -> ChannelMonitorUpdateStatus {
 		let steps = update.verif_steps();
 		let bytes = update.encode();
+		let roundtrip = match <ChannelMonitorUpdate as lightning::util::ser::Readable>::read(&mut &bytes[..]) {
+			Ok(u) if u == *update => None,
+			Ok(_) => Some("reads back as a different update".to_string()),
+			Err(e) => Some(format!("does not read back: {:?}", e)),
+		};
 		let r = self.inner.update_channel(channel_id, update);
-		self.log.push(Ev::WatchUpdate { node: self.node, chan: channel_id, update_id: update.update_id, steps, status: format!("{:?}", r), bytes });
+		self.log.push(Ev::WatchUpdate { node: self.node, chan: channel_id, update_id: update.update_id, steps, status: format!("{:?}", r), bytes, roundtrip });
 		r
 	}
 	fn release_pending_monitor_events(&self) -> Vec<(OutPoint, ChannelId, Vec<MonitorEvent>, PublicKey)> {
